@@ -13,7 +13,20 @@ use serde_json::{json, Value};
 pub const RULE: &str = "positions: rule-interaction-biased set-ups (castle/ep/promotion/pin/check/cage themes, uniform and pawn-heavy placements) and reachable positions (random legal walks from 14 seeds and from set-ups); each is given to a brand-new MoveGenerator (the colour is passed explicitly; in half of the cases board.turn() is the other colour, as in count_positions) and the result compared as a multiset of (kind, from, to, promotion, captured) with the mailbox reference. Walks additionally evolve one engine board by apply() and compare at every node; tree walks enumerate all nodes to a fixed depth. Non-trivial = position shows a legal or illegal-pseudo-legal en passant, available or attack-prevented castling, promotion, pin, check, double check, mate or stalemate; distinct = position fingerprint (placement, side, rights, ep).";
 
 pub fn test_position(pos: &Pos, st: &mut Stats) -> TestResult {
+    // legal moves do not depend on the clocks: one position in eight carries a half-move clock
+    // of 100..149 (a legal game goes on until a draw is claimed, at the latest at 150)
+    let mut pos = pos.clone();
+    if pos.ep.is_none() && (pos.fingerprint() >> 8) % 8 == 0 {
+        pos.half = 100 + ((pos.fingerprint() >> 16) % 50) as u32;
+        st.label("half-move-clock>=100");
+    }
+    let pos = &pos;
     let mut board = to_board(pos);
+    // a copy of a board is the same position (one case in four is generated from a clone)
+    if (pos.fingerprint() >> 4) % 4 == 0 {
+        board = board.clone();
+        st.label("generated-from-a-clone");
+    }
     // callers such as count_positions pass the colour explicitly and never update
     // board.turn(): in half of the cases the board's turn is the other colour
     if pos.fingerprint() & 1 == 1 {
